@@ -18,12 +18,12 @@ pub fn def() -> CheckDef {
         id: "C13",
         level: "fault_enumeration",
         cases: |t| match t {
-            Tier::Quick => 16,
-            Tier::Thorough => 1_000,
+            Tier::Quick => 12 * SLICES,
+            Tier::Thorough => 300 * SLICES,
         },
         gen,
         run,
-        rule: "one case = a drawn mutating workload from an empty file (create storages/streams; handle writes that stay mini, stay regular, migrate both ways; set_len; removes; setters; explicit flush on handles and on the file; <= 40 calls, V3/V4, drawn max_buffer_size). A fault-free reference run counts the N underlying seam calls; then the workload is re-run with one fault at EVERY k in 1..N in each kind applicable to call k: fail (F-WE / F-SE / F-FE / F-RE), torn write with a drawn prefix (F-WT), and disk-full from k on, healed after the first failing API call (F-DF). A failing API call is retried (<= 3 times), then the rest of the workload runs. Oracles: (1) an API call during which a write/seek/flush fault fired returns Err; (2) nothing panics or exceeds its step budget; (3) whenever flush() on a handle returns Ok - first try or retry - a fresh handle on the live file reads back exactly the bytes whose write calls that handle accepted (read-back errors count as inconclusive). sub_runs = faulted executions. Non-trivial: a fault fired and a later handle flush returned Ok and was verified; distinct = distinct seam-log hashes.",
+        rule: "one workload (its fault positions spread over 8 cases, k mod 8) = a drawn mutating workload from an empty file (create storages/streams; handle writes that stay mini, stay regular, migrate both ways; set_len; removes; setters; explicit flush on handles and on the file; <= 40 calls, V3/V4, drawn max_buffer_size). A fault-free reference run counts the N underlying seam calls; then the workload is re-run with one fault at EVERY k in 1..N in each kind applicable to call k: fail (F-WE / F-SE / F-FE / F-RE), torn write with a drawn prefix (F-WT), and disk-full from k on, healed after the first failing API call (F-DF). A failing API call is retried (<= 3 times), then the rest of the workload runs. Oracles: (1) an API call during which a write/seek/flush fault fired returns Err; (2) nothing panics or exceeds its step budget; (3) whenever flush() on a handle returns Ok - first try or retry - a fresh handle on the live file AND the underlying bytes reopened read back exactly the bytes whose write calls that handle accepted (read-back / reopen errors count as inconclusive). sub_runs = faulted executions. Non-trivial: a fault fired and a later handle flush returned Ok and was verified; distinct = distinct seam-log hashes.",
         assumptions: &["Drop is never relied upon to write back (excluded by the statement): the workload flushes explicitly", "after a failed set_len or failed structural call the affected stream's expected content is unknown and no longer judged (inconclusive)"],
         cpu_limit_s: 180,
         fault_kinds: "F-WE, F-WT, F-SE, F-FE, F-RE at every k (enumerated), F-DF from every k with heal",
@@ -31,7 +31,13 @@ pub fn def() -> CheckDef {
     }
 }
 
+/// The fault positions of one workload are spread over SLICES cases (k mod SLICES), so
+/// that the enumeration of a long workload uses all workers.
+pub const SLICES: u64 = 8;
+
 pub fn gen(seed: u64, idx: u64, _tier: Tier) -> Case {
+    let slice = idx % SLICES;
+    let idx = idx / SLICES;
     let mut rng = Rng::for_case(seed, "C13", idx);
     let version = if rng.chance(1, 2) { 3 } else { 4 };
     let mut c = Case::new("C13", "enumerate", version);
@@ -46,18 +52,19 @@ pub fn gen(seed: u64, idx: u64, _tier: Tier) -> Case {
         case_variants: 0,
         weights: vec![
             ("create_storage", 3),
-            ("write_whole", 3),
+            ("write_whole", 5),
             ("remove_stream", 2),
             ("set_state_bits", 1),
             ("flush", 2),
             ("h_create_stream", 6),
-            ("open_stream", 3),
+            ("open_stream", 6),
             ("h_write_all", 14),
             ("h_write", 3),
             ("h_seek", 5),
             ("h_set_len", 4),
             ("h_flush", 10),
-            ("h_read_full", 2),
+            ("h_read_full", 6),
+            ("h_read", 2),
             ("h_drop", 2),
         ],
         max_objects: 8,
@@ -69,8 +76,30 @@ pub fn gen(seed: u64, idx: u64, _tier: Tier) -> Case {
         set_len_shrink_only: false,
     };
     let n = rng.range(6, 26) as usize;
-    let mut g = Gen::new(&mut rng, &cfg, Model::new(version));
-    let mut ops = g.history(n);
+    // motif (every other case): patch the head of an existing stream, then READ ON through the
+    // same handle (the read has to write the patch back first), then flush
+    let motif = idx % 2 == 0;
+    let mut pre: Vec<Op> = vec![];
+    let mut model = Model::new(version);
+    if motif {
+        let len = *rng.pick(&[3000u64, 6000, 9000]);
+        pre.push(Op::WriteWhole { path: "/p".into(), len, nonce: 77 });
+        pre.push(Op::HOpen { h: 3, path: "/p".into() });
+        pre.push(Op::HWriteAll { h: 3, len: *rng.pick(&[1usize, 25, 64, 1000]), nonce: 78 });
+        pre.push(Op::HReadFull { h: 3, n: *rng.pick(&[10usize, 100, 2000]) });
+        pre.push(Op::HFlush { h: 3 });
+        pre.push(Op::HSeek { h: 3, whence: Whence::Start, off: 0, uoff: rng.below(len) });
+        pre.push(Op::HWriteAll { h: 3, len: *rng.pick(&[7usize, 300]), nonce: 79 });
+        pre.push(Op::HRead { h: 3, n: 50 });
+        pre.push(Op::HFlush { h: 3 });
+        pre.push(Op::HDrop { h: 3 });
+        for op in &pre {
+            model.predict(op);
+        }
+    }
+    let mut g = Gen::new(&mut rng, &cfg, model);
+    let mut ops = pre;
+    ops.extend(g.history(n));
     // make sure every handle is flushed explicitly before the end
     for h in 0..4 {
         ops.push(Op::HFlush { h });
@@ -78,6 +107,8 @@ pub fn gen(seed: u64, idx: u64, _tier: Tier) -> Case {
     ops.push(Op::FlushFile);
     c.ops = ops;
     c.params.insert("torn_seed".into(), (rng.next_u64() >> 2) as i64);
+    c.params.insert("slice".into(), slice as i64);
+    c.params.insert("nslices".into(), SLICES as i64);
     c
 }
 
@@ -145,9 +176,36 @@ fn execute(case: &Case, plan: &[Fault], heal_after_first_failure: bool) -> RunOu
     };
     lib.budget_base = 400_000;
     let mut hs: Vec<Option<HState>> = vec![None, None, None, None];
+    // content of streams as last established by a successful whole-stream write or a verified flush
+    let mut known: BTreeMap<String, Vec<u8>> = BTreeMap::new();
+    let mut reopened_at_fault_count: u64 = 0;
     // paths whose content is uncertain because a structural / whole-stream call failed
     let mut tainted: BTreeSet<String> = BTreeSet::new();
     'ops: for (i, op) in case.ops.iter().enumerate() {
+        // a second handle on a stream that already has one is outside the statement
+        // (minimisation can produce such scripts): skip the op
+        if let Op::HOpen { path, h } | Op::HCreate { path, h } | Op::HCreateNew { path, h } = op {
+            if hs.iter().enumerate().any(|(j, x)| j != *h && x.as_ref().map(|st| st.path.eq_ignore_ascii_case(path)).unwrap_or(false)) {
+                continue;
+            }
+        }
+        if let Op::WriteWhole { path, .. } | Op::RemoveStream(path) | Op::CreateStream(path) = op {
+            if hs.iter().any(|x| x.as_ref().map(|st| st.path.eq_ignore_ascii_case(path)).unwrap_or(false)) {
+                continue;
+            }
+        }
+        // an object whose creation / resize / whole-stream write failed for good is in an
+        // unknown state (the statement allows later calls to fail, it does not promise that a
+        // failed call is atomic): like a careful caller, the workload does not touch it again
+        let target: Option<&String> = match op {
+            Op::HOpen { path, .. } | Op::HCreate { path, .. } | Op::HCreateNew { path, .. } | Op::WriteWhole { path, .. } | Op::RemoveStream(path) | Op::CreateStream(path) | Op::ReadWhole(path) => Some(path),
+            _ => None,
+        };
+        if let Some(p) = target {
+            if tainted.iter().any(|t| t.eq_ignore_ascii_case(p)) {
+                continue;
+            }
+        }
         let mut tries = 0;
         loop {
             tries += 1;
@@ -163,6 +221,9 @@ fn execute(case: &Case, plan: &[Fault], heal_after_first_failure: bool) -> RunOu
             }
             let got = lib.exec(op);
             let fired = lib.disk.fired_in_call();
+            if std::env::var("VERIF_DEBUG").is_ok() {
+                eprintln!("step {} try {} {} -> {} fired={:?} k={}", i, tries, op.to_json(), got.brief(), fired, lib.disk.k());
+            }
             let write_fault = fired.iter().any(|(_, n)| is_write_class(n));
             match &got {
                 Res::Panic(p) => {
@@ -193,22 +254,24 @@ fn execute(case: &Case, plan: &[Fault], heal_after_first_failure: bool) -> RunOu
             match op {
                 Op::HCreate { h, path } | Op::HCreateNew { h, path } | Op::HOpen { h, path } => {
                     if !is_err && !matches!(got, Res::Skipped) {
-                        let known = if matches!(op, Op::HOpen { .. }) {
-                            // content as of now: read it through the library is not possible without
-                            // disturbing; treat as unknown unless never touched by a fault
+                        let content = if tainted.contains(path) {
                             None
-                        } else if tainted.contains(path) {
-                            None
+                        } else if matches!(op, Op::HOpen { .. }) {
+                            known.get(path).cloned()
                         } else {
                             Some(Vec::new())
                         };
-                        hs[*h] = Some(HState { path: path.clone(), content: known });
+                        hs[*h] = Some(HState { path: path.clone(), content });
                     } else if is_err {
                         tainted.insert(path.clone());
                         hs[*h] = None;
                     }
                 }
                 Op::HWrite { h, len, nonce } | Op::HWriteAll { h, len, nonce } => {
+                    if let Some(st) = hs[*h].as_ref() {
+                        // what the file holds for this stream is open until a flush is verified
+                        known.remove(&st.path);
+                    }
                     if let Some(st) = hs[*h].as_mut() {
                         let accepted = match &got {
                             Res::Num(m) => Some(*m as usize),
@@ -237,10 +300,19 @@ fn execute(case: &Case, plan: &[Fault], heal_after_first_failure: bool) -> RunOu
                     }
                 }
                 Op::HSetLen { h, n } => {
-                    if let Some(st) = hs[*h].as_mut() {
-                        if is_err {
-                            st.content = None;
-                        } else if let Some(c) = st.content.as_mut() {
+                    if let Some(st) = hs[*h].as_ref() {
+                        known.remove(&st.path);
+                    }
+                    if is_err {
+                        // a resize that failed half-way may have moved the stream between the
+                        // mini stream and regular sectors: give the object up, no retry
+                        if let Some(st) = hs[*h].take() {
+                            tainted.insert(st.path.clone());
+                            let _ = lib.exec(&Op::HDrop { h: *h });
+                        }
+                        break;
+                    } else if let Some(st) = hs[*h].as_mut() {
+                        if let Some(c) = st.content.as_mut() {
                             c.resize(*n as usize, 0);
                         }
                     }
@@ -248,7 +320,16 @@ fn execute(case: &Case, plan: &[Fault], heal_after_first_failure: bool) -> RunOu
                 Op::HDrop { h } => {
                     hs[*h] = None;
                 }
-                Op::WriteWhole { path, .. } | Op::RemoveStream(path) | Op::CreateStream(path) => {
+                Op::WriteWhole { path, len, nonce } => {
+                    if is_err {
+                        tainted.insert(path.clone());
+                        known.remove(path);
+                    } else if matches!(got, Res::Unit) && !tainted.contains(path) {
+                        known.insert(path.clone(), crate::prng::pattern(*nonce, 0, *len as usize));
+                    }
+                }
+                Op::RemoveStream(path) | Op::CreateStream(path) => {
+                    known.remove(path);
                     if is_err {
                         tainted.insert(path.clone());
                     }
@@ -282,6 +363,45 @@ fn execute(case: &Case, plan: &[Fault], heal_after_first_failure: bool) -> RunOu
                                     if any_fault > 0 {
                                         out.verified_after_fault += 1;
                                     }
+                                    known.insert(st.path.clone(), want.clone());
+                                    // "... is in the compound file": the bytes alone must say the same
+                                    // (checked at the first verified flush after each new fault)
+                                    if any_fault == reopened_at_fault_count {
+                                        break;
+                                    }
+                                    reopened_at_fault_count = any_fault;
+                                    let snap = SimDisk::new(lib.disk.snapshot());
+                                    if let Ok(mut l2) = Lib::open(snap, false, case.bufsize) {
+                                        l2.budget_base = 400_000;
+                                        match l2.exec(&Op::ReadWhole(st.path.clone())) {
+                                            Res::Bytes(b2) => {
+                                                if &b2 != want {
+                                                    let first = b2.iter().zip(want.iter()).position(|(x, y)| x != y);
+                                                    out.violation = Some((
+                                                        "not-in-file-after-ok-flush".into(),
+                                                        "h_flush".into(),
+                                                        format!(
+                                                            "step {} {} (attempt {}) returned Ok and the live object reads the data back, but the underlying bytes reopened hold {} bytes for {:?} where the accepted writes amount to {} bytes (first mismatch at {:?})",
+                                                            i,
+                                                            op.to_json(),
+                                                            tries,
+                                                            b2.len(),
+                                                            st.path,
+                                                            want.len(),
+                                                            first
+                                                        ),
+                                                        i,
+                                                    ));
+                                                    l2.close();
+                                                    break 'ops;
+                                                }
+                                            }
+                                            _ => out.inconclusive += 1,
+                                        }
+                                        l2.close();
+                                    } else {
+                                        out.inconclusive += 1;
+                                    }
                                 }
                                 Res::Panic(p) => {
                                     out.violation = Some(("panic".into(), normalise_site(&p), format!("read-back after step {} panicked: {}", i, p), i));
@@ -296,6 +416,16 @@ fn execute(case: &Case, plan: &[Fault], heal_after_first_failure: bool) -> RunOu
             }
             if is_err && tries < 4 && !fired.is_empty() {
                 continue; // retry the failed call
+            }
+            if is_err {
+                // failed for good (or a set_len failed at all): give the object up
+                if let (Some(h), Op::HWrite { .. } | Op::HWriteAll { .. } | Op::HSetLen { .. } | Op::HFlush { .. }) = (op.handle(), op) {
+                    if let Some(st) = hs[h].take() {
+                        known.remove(&st.path);
+                        tainted.insert(st.path.clone());
+                        let _ = lib.exec(&Op::HDrop { h });
+                    }
+                }
             }
             break;
         }
@@ -345,11 +475,15 @@ pub fn run(case: &Case, _known: &BTreeSet<String>) -> Outcome {
         run_plan(&mut o, case.faults.clone(), case.param("heal", 0) == 1);
     } else {
         let mut rng = Rng::new(case.param("torn_seed", 1) as u64);
+        let (slice, nslices) = (case.param("slice", 0) as u64, case.param("nslices", 1).max(1) as u64);
         'enumerate: for k in 1..=n {
+            let keep = rng.below(64) as usize;
+            if k % nslices != slice {
+                continue;
+            }
             if !run_plan(&mut o, vec![Fault { k, kind: FaultKind::Fail }], false) {
                 break 'enumerate;
             }
-            let keep = rng.below(64) as usize;
             if !run_plan(&mut o, vec![Fault { k, kind: FaultKind::Torn { keep } }], false) {
                 break 'enumerate;
             }
